@@ -35,8 +35,10 @@ def check(src, rep):
     w = World(src)
     file = src.file(MOD)
     rep.count("modules", len(src.text))
-    fn = M.funcs.get("kamstrup._normalize_parsed_items")
-    rep.require(fn is not None, "anchor vanished: kamstrup._normalize_parsed_items")
+    from sa.decoders import normaliser_workers
+    ws = normaliser_workers(M, MOD)
+    rep.require(len(ws) == 1, f"cannot find the one list-items normaliser reached from the public normalize_* functions (found {[w.name for w in ws]})")
+    fn = ws[0]
     rep.assumptions += ["Kamstrup HAN scaling as summarised in the property (DESIGN.md A.4)", "true division of a Python int by an exact power of ten is correctly rounded"]
     rep.explanation = ("Decided: every six-part OBIS literal in the module has groups 0..255 (so comparisons with decoded codes are not constant-false); CT detection calls startswith('685') on the text "
                        "value of the element whose OBIS code is the meter-type code; the two scaling tables equal the documented ones and the CT table is chosen exactly under the CT test; negative "
@@ -57,12 +59,22 @@ def check(src, rep):
     rep.count("obis_literals", len(lits))
     rep.floor("OBIS literals", len(lits), 8)
     # ---------------------------------------------------------------- R3 tables
+    # the two tables are the alternatives of the conditional expression that selects the scaling table
+    tabs = None
+    for n in ast.walk(fn.node):
+        if isinstance(n, ast.IfExp) and isinstance(n.body, ast.Name) and isinstance(n.orelse, ast.Name):
+            tabs = (n, n.body.id, n.orelse.id)
+    rep.require(tabs is not None, "cannot find the selection between the two scaling tables")
     try:
-        std = ce.module_value(MOD, "_field_scaling_standard")
-        ct = ce.module_value(MOD, "_field_scaling_ct_meter")
+        t_body, t_else = ce.module_value(MOD, tabs[1]), ce.module_value(MOD, tabs[2])
     except NotConstant as e:
         raise Undecided(f"scaling tables are not constant: {e}")
-    for name, got, want in (("_field_scaling_standard", std, STD), ("_field_scaling_ct_meter", ct, CT)):
+    # which is the CT table: decided below from the selecting test; here: one must equal each documented table
+    cand = {tabs[1]: t_body, tabs[2]: t_else}
+    ct_name = next((k for k, v in cand.items() if v == CT), None) or next((k for k, v in cand.items() if v.get(CUR[0]) == -3), tabs[1])
+    std_name = next(k for k in cand if k != ct_name)
+    std, ct = cand[std_name], cand[ct_name]
+    for name, got, want in ((std_name, std, STD), (ct_name, ct, CT)):
         if got == want:
             rep.ok("R3", name, "currents 10^%d, energies 10^1, nothing else" % (want[CUR[0]]))
         else:
@@ -87,16 +99,16 @@ def check(src, rep):
                 if lit is not None and attr is not None and isinstance(c.ops[0], ast.Eq):
                     sel_var, sel_lit = name, lit
     if sel_var is None:
-        rep.violation("R2", "kamstrup._normalize_parsed_items", "meter-type-lookup", "the meter-type element is not looked up by its OBIS code", file, fn.node.lineno)
+        rep.violation("R2", f"kamstrup.{fn.name}", "meter-type-lookup", "the meter-type element is not looked up by its OBIS code", file, fn.node.lineno)
     elif sel_lit != METER_TYPE:
-        rep.violation("R2", "kamstrup._normalize_parsed_items", "meter-type-code", f"the meter-type element is looked up with OBIS code {sel_lit!r} instead of {METER_TYPE!r}", file, fn.node.lineno)
+        rep.violation("R2", f"kamstrup.{fn.name}", "meter-type-code", f"the meter-type element is looked up with OBIS code {sel_lit!r} instead of {METER_TYPE!r}", file, fn.node.lineno)
     ct_var = None
     ct_expr = None
     for name, v in assigns.items():
         if any(isinstance(n, ast.Call) and isinstance(n.func, ast.Attribute) and n.func.attr == "startswith" for n in ast.walk(v)):
             ct_var, ct_expr = name, v
     if ct_expr is None:
-        rep.violation("R2", "kamstrup._normalize_parsed_items", "ct-test-missing", "no CT-meter detection (startswith on the meter type number)", file, fn.node.lineno)
+        rep.violation("R2", f"kamstrup.{fn.name}", "ct-test-missing", "no CT-meter detection (startswith on the meter type number)", file, fn.node.lineno)
     else:
         sw = next(n for n in ast.walk(ct_expr) if isinstance(n, ast.Call) and isinstance(n.func, ast.Attribute) and n.func.attr == "startswith")
         recv = ast.unparse(sw.func.value)
@@ -104,25 +116,25 @@ def check(src, rep):
         typed = recv == f"{sel_var}.value"
         guarded = f"{sel_var} is not None" in ast.unparse(ct_expr)
         if arg != "685":
-            rep.violation("R2", "kamstrup._normalize_parsed_items", "ct-prefix", f"CT meters are detected by the prefix {arg!r} instead of '685'", file, sw.lineno)
+            rep.violation("R2", f"kamstrup.{fn.name}", "ct-prefix", f"CT meters are detected by the prefix {arg!r} instead of '685'", file, sw.lineno)
         elif not typed:
-            rep.violation("R2", "kamstrup._normalize_parsed_items", "ct-test-type", "startswith is not called on the text value of the meter-type element (the element container has no such method)", file, sw.lineno, witness=recv)
+            rep.violation("R2", f"kamstrup.{fn.name}", "ct-test-type", "startswith is not called on the text value of the meter-type element (the element container has no such method)", file, sw.lineno, witness=recv)
         elif not guarded:
-            rep.violation("R2", "kamstrup._normalize_parsed_items", "ct-test-none", "the CT test dereferences the meter-type element without checking that it was found", file, sw.lineno)
+            rep.violation("R2", f"kamstrup.{fn.name}", "ct-test-none", "the CT test dereferences the meter-type element without checking that it was found", file, sw.lineno)
         else:
             rep.ok("R2", "CT detection", f"{sel_var}.value.startswith('685') on the element whose OBIS code is {METER_TYPE}, guarded by presence (and text type)")
     tab_var = None
     for name, v in assigns.items():
-        if isinstance(v, ast.IfExp) and {ast.unparse(v.body), ast.unparse(v.orelse)} == {"_field_scaling_ct_meter", "_field_scaling_standard"}:
+        if isinstance(v, ast.IfExp) and {ast.unparse(v.body), ast.unparse(v.orelse)} == {ct_name, std_name}:
             tab_var = name
-            ok_sel = ast.unparse(v.test) == ct_var and ast.unparse(v.body) == "_field_scaling_ct_meter"
-            neg_sel = ast.unparse(v.test) == f"not {ct_var}" and ast.unparse(v.orelse) == "_field_scaling_ct_meter"
+            ok_sel = ast.unparse(v.test) == ct_var and ast.unparse(v.body) == ct_name
+            neg_sel = ast.unparse(v.test) == f"not {ct_var}" and ast.unparse(v.orelse) == ct_name
             if ok_sel or neg_sel:
                 rep.ok("R3", "table selection", "the CT table exactly when the CT test holds, else the standard table")
             else:
-                rep.violation("R3", "kamstrup._normalize_parsed_items", "table-selection", "the CT scaling table is not selected exactly when the CT test holds", file, v.lineno, witness=ast.unparse(v)[:100])
+                rep.violation("R3", f"kamstrup.{fn.name}", "table-selection", "the CT scaling table is not selected exactly when the CT test holds", file, v.lineno, witness=ast.unparse(v)[:100])
     if tab_var is None:
-        rep.violation("R3", "kamstrup._normalize_parsed_items", "table-selection-missing", "the scaling table is not chosen between the standard and the CT table", file, fn.node.lineno)
+        rep.violation("R3", f"kamstrup.{fn.name}", "table-selection-missing", "the scaling table is not chosen between the standard and the CT table", file, fn.node.lineno)
     # ---------------------------------------------------------------- R4/R5: item loop
     E = Engine(M)
     node, ps = loop_body_paths(E, fn)
@@ -137,7 +149,7 @@ def check(src, rep):
         st = setitems(p)
         if len(st) != 1:
             bad5 += 1
-            rep.violation("R5", "kamstrup._normalize_parsed_items", "stores-per-element", f"an element produces {len(st)} dictionary entries", file, node.lineno)
+            rep.violation("R5", f"kamstrup.{fn.name}", "stores-per-element", f"an element produces {len(st)} dictionary entries", file, node.lineno)
             continue
         key, value, line = st[0]
         n_paths += 1
@@ -159,16 +171,16 @@ def check(src, rep):
         if has_obis is False:
             if key != ("c", "list_ver_id"):
                 bad5 += 1
-                rep.violation("R5", "kamstrup._normalize_parsed_items", "list-version-name", "the element without OBIS code is not stored as list_ver_id", file, line, witness=show_sv(key)[:60])
+                rep.violation("R5", f"kamstrup.{fn.name}", "list-version-name", "the element without OBIS code is not stored as list_ver_id", file, line, witness=show_sv(key)[:60])
         else:
             nv = naming_verdict(key, p.guards, item)
             if nv:
                 bad5 += 1
-                rep.violation("R5", "kamstrup._normalize_parsed_items", "naming", nv, file, line)
+                rep.violation("R5", f"kamstrup.{fn.name}", "naming", nv, file, line)
         if is_dt:
             if value != ("f0", vsv, "datetime"):
                 bad5 += 1
-                rep.violation("R5", "kamstrup._normalize_parsed_items", "clock-element", "the clock element is not stored as the decoded datetime", file, line)
+                rep.violation("R5", f"kamstrup.{fn.name}", "clock-element", "the clock element is not stored as the decoded datetime", file, line)
             continue
         if is_int and scale_truthy:
             # value expression by sign of the exponent
@@ -188,23 +200,23 @@ def check(src, rep):
                     break
                 if (s_val < 0 and not okneg) or (s_val > 0 and not okpos):
                     bad4 += 1
-                    rep.violation("R4", "kamstrup._normalize_parsed_items", f"inexact-scaling:exponent{s_val}", f"for exponent {s_val} the register is scaled by `{kind}`: "
+                    rep.violation("R4", f"kamstrup.{fn.name}", f"inexact-scaling:exponent{s_val}", f"for exponent {s_val} the register is scaled by `{kind}`: "
                                   + ("multiplying by 10**-n uses a binary approximation (35 -> 0.35000000000000003)" if s_val < 0 else "dividing where an exact integer product is required"),
                                   file, line, witness=show_sv(expr)[:100])
                     break
         elif is_int and scale_truthy is False:
             if value != vsv:
                 bad4 += 1
-                rep.violation("R4", "kamstrup._normalize_parsed_items", "unscaled-changed", "a register without scaling entry is not stored unchanged", file, line)
+                rep.violation("R4", f"kamstrup.{fn.name}", "unscaled-changed", "a register without scaling entry is not stored unchanged", file, line)
         elif is_int is False:
             if value != vsv:
                 bad5 += 1
-                rep.violation("R5", "kamstrup._normalize_parsed_items", "text-not-verbatim", "a text value is transformed before it is stored", file, line)
+                rep.violation("R5", f"kamstrup.{fn.name}", "text-not-verbatim", "a text value is transformed before it is stored", file, line)
     # the scale lookup uses the selected table with the element's six-part code
     gets = [n for n in ast.walk(loop) if isinstance(n, ast.Call) and isinstance(n.func, ast.Attribute) and n.func.attr == "get" and ast.unparse(n.func.value) == (tab_var or "")]
     if tab_var and not (gets and all(ast.unparse(g.args[0]).endswith(".obis") for g in gets)):
         bad4 += 1
-        rep.violation("R4", "kamstrup._normalize_parsed_items", "scale-lookup", "the exponent is not looked up in the selected table by the element's OBIS code", file, loop.lineno)
+        rep.violation("R4", f"kamstrup.{fn.name}", "scale-lookup", "the exponent is not looked up in the selected table by the element's OBIS code", file, loop.lineno)
     if not bad4 and n_paths:
         rep.ok("R4", "scaling idiom", "negative exponents divide by the exact power of ten, positive ones multiply integers; unscaled registers stored as parsed")
     if not bad5 and n_paths:
@@ -228,7 +240,7 @@ def check(src, rep):
     fr_fn = M.funcs.get("kamstrup.normalize_parsed_frame")
     rep.require(fr_fn is not None, "anchor vanished: kamstrup.normalize_parsed_frame")
     stmts = fr_fn.node.body
-    call_i = next((i for i, s in enumerate(stmts) if any(isinstance(n, ast.Call) and ast.unparse(n.func) == "_normalize_parsed_items" for n in ast.walk(s))), None)
+    call_i = next((i for i, s in enumerate(stmts) if any(isinstance(n, ast.Call) and ast.unparse(n.func) == fn.name for n in ast.walk(s))), None)
     writes = [(i, n) for i, s in enumerate(stmts) for n in ast.walk(s) if isinstance(n, ast.Assign) and isinstance(n.targets[0], ast.Subscript) and "METER_DATETIME" in ast.unparse(n.targets[0])]
     soft = [n for s in stmts for n in ast.walk(s) if isinstance(n, ast.Call) and isinstance(n.func, ast.Attribute) and n.func.attr in ("setdefault", "get") and "METER_DATETIME" in ast.unparse(n)]
     if call_i is not None and writes and all(i > call_i for i, _ in writes) and all(ast.unparse(n.value).endswith("information.DateTime.datetime") for _, n in writes) and not soft:
@@ -240,7 +252,7 @@ def check(src, rep):
     if okm:
         rep.ok("R5", "manufacturer", "meter_manufacturer = 'Kamstrup'")
     else:
-        rep.violation("R5", "kamstrup._normalize_parsed_items", "manufacturer", "the manufacturer field is not the constant 'Kamstrup'", file, fn.node.lineno)
+        rep.violation("R5", f"kamstrup.{fn.name}", "manufacturer", "the manufacturer field is not the constant 'Kamstrup'", file, fn.node.lineno)
     tg = parse_targets(M, MOD)
     if list(routes(frame, bodyg)) and tg == {"decode_frame_content": "LlcPdu", "decode_notification_body": "NotificationBody"}:
         rep.ok("R5", "frame = body", "LlcPdu wraps the same NotificationBody grammar; both entry points share the item normaliser")
